@@ -8,8 +8,9 @@
 //!   * which active leaf produces its next item (interleaving at item
 //!     granularity; within a leaf items are produced in index order),
 //!   * after a consumer has asked to stop (first `Err`/`None` of a
-//!     `collect::<Result<..>>()`), how many further items each active leaf
-//!     still completes (items in flight) before it notices.
+//!     `collect::<Result<..>>()`), which further items the *other* leaves still
+//!     complete, and in which interleaving, before they notice (the refusing
+//!     leaf itself stops at once, as rayon's `while_some` folder does).
 //! With no chooser installed every choice is 0: one leaf, in order, immediate
 //! cancellation — i.e. plain sequential iteration.
 
@@ -185,34 +186,27 @@ pub fn drive<I: ParallelIterator>(iter: &I, mut accept: impl FnMut(usize, I::Ite
     }
     let mut leaves: Vec<L<I::Item>> = runs.iter().map(|r| L { next: r.0, end: r.1, produce: None }).collect();
     let mut stopped = false;
+    // leaves whose own consumer has seen the refusal: rayon's `while_some` folder is `full()` at once,
+    // so such a leaf produces nothing further
+    let mut refused: Vec<usize> = vec![];
     loop {
-        let active: Vec<usize> = (0..leaves.len()).filter(|i| leaves[*i].next < leaves[*i].end).collect();
+        let active: Vec<usize> = (0..leaves.len()).filter(|i| leaves[*i].next < leaves[*i].end && !refused.contains(i)).collect();
         if active.is_empty() {
             break;
         }
-        if stopped {
-            // items in flight: each active leaf may still complete some of its remaining items
-            for li in active {
-                // (a leaf that was about to start may not have seen the stop flag either)
-                if leaves[li].produce.is_none() {
-                    let r = leaves[li].next..leaves[li].end;
-                    leaves[li].produce = Some(iter.model_leaf(r));
-                }
-                let remaining = leaves[li].end - leaves[li].next;
-                let extra = model::choose(remaining as u32 + 1) as usize;
-                for _ in 0..extra {
-                    let idx = leaves[li].next;
-                    leaves[li].next += 1;
-                    let item = (leaves[li].produce.as_mut().unwrap())();
-                    model::log(model::Event::Item { leaf: li, index: idx });
-                    if let Some(item) = item {
-                        let _ = accept(idx, item);
-                    }
-                }
+        // after a stop request the shared flag is set, but every other leaf -- also one that has not
+        // started yet -- may still complete any prefix of its remaining items before it looks at the
+        // flag, in any interleaving with the other leaves: choice 0 = everybody has noticed (the rest
+        // is cancelled), choice k = the k-th active leaf produces one more item first
+        let li = if stopped {
+            let k = model::choose(active.len() as u32 + 1) as usize;
+            if k == 0 {
+                break;
             }
-            break;
-        }
-        let li = active[model::choose(active.len() as u32) as usize];
+            active[k - 1]
+        } else {
+            active[model::choose(active.len() as u32) as usize]
+        };
         if leaves[li].produce.is_none() {
             let r = leaves[li].next..leaves[li].end;
             leaves[li].produce = Some(iter.model_leaf(r));
@@ -223,8 +217,11 @@ pub fn drive<I: ParallelIterator>(iter: &I, mut accept: impl FnMut(usize, I::Ite
         model::log(model::Event::Item { leaf: li, index: idx });
         if let Some(item) = item {
             if !accept(idx, item) {
-                stopped = true;
-                model::log(model::Event::Stop);
+                refused.push(li);
+                if !stopped {
+                    stopped = true;
+                    model::log(model::Event::Stop);
+                }
             }
         }
     }
